@@ -169,7 +169,9 @@ def checkOthers (d' : DState) (s u : Nat) (impl : String) : List String :=
     let lost := d'.reg.filter fun r => r.1 != s && !have_.contains r
     if lost.isEmpty then [] else
       [s!"C05 removing the periodic URR {u} of session {natHex s} ended the periodic reporting of other sessions: " ++
-       String.intercalate "," (lost.map fun r => s!"{natHex r.1}/{r.2.1} (period {r.2.2})") ++ " are no longer registered"]
+       String.intercalate "," (lost.map fun r => s!"{natHex r.1}/{r.2.1} (period {r.2.2})") ++ " are no longer registered",
+       s!"C03 URR(s) " ++ String.intercalate "," (lost.map fun r => s!"{natHex r.1}/{r.2.1}") ++
+       s!" still carry the periodic trigger and have not been removed, but are no longer registered for periodic querying (after the removal of URR {u} of session {natHex s})"]
 
 def eval (d : DState) (fn : String) (args : List String) (impl : String) : Option (DState × Verdict) := do
   let st := d.st
